@@ -11,6 +11,10 @@ import (
 	"github.com/juev/hledger-lsp/internal/ast"
 )
 
+// maxAmountExponent bounds the decimal exponent (positive or negative) of a
+// parsed quantity.
+const maxAmountExponent = 1000
+
 type ParseError struct {
 	Message string
 	Pos     Position
@@ -355,6 +359,12 @@ func (p *Parser) parseAmount() *ast.Amount {
 	qty, err := decimal.NewFromString(numberStr)
 	if err != nil {
 		p.error("invalid number: %s", p.current.Value)
+		return nil
+	}
+	// decimal accepts any exponent, but adding 1E9999999 to another amount
+	// materialises ten million digits: bound the scale of what enters the tree.
+	if exp := qty.Exponent(); exp > maxAmountExponent || exp < -maxAmountExponent {
+		p.error("number out of range: %s", p.current.Value)
 		return nil
 	}
 	amount.Quantity = qty
